@@ -1,0 +1,14 @@
+//go:build verif
+
+// Contracts for the verification machinery in /verif (comment-only; compiled only with -tags verif).
+
+package commitment
+
+//@ spec rvOK(rv string) bool
+//@ spec commitOfReveal(rv string) string
+//
+//@ func GetCommitmentFromRevealValue
+//@   trusted
+//@   results c, err
+//@   ensures (err == nil) == rvOK(rv)
+//@   ensures err == nil ==> c == commitOfReveal(rv) && c != ""
